@@ -67,6 +67,17 @@ theorem fill_private_of_clean_clones {w : World} {caps : Nat → Nat} (hr : CRea
     FillPrivate w op :=
   fun _ _ _ _ _ hj => noShare_of_private hr.priv.priv (fun e => hj e.symm)
 
+/-- One iovec against all others: `Unshared w i` (no slice of `i` covers a pending placeholder range of any
+other iovec) is preserved by every step of every history, except a `clone` of `i` itself taken while `i` has a
+placeholder pending.  An iovec without slices (fresh, cleared, taken-from) is `Unshared`. -/
+theorem unshared_preserved {w w' : World} {caps : Nat → Nat} {op : WOp} {i : Nat} (hg : GReach w caps)
+    (h : w.step op = some w') (hi : i < w.iovs.length) (hu : Unshared w i)
+    (hc : ∀ v, op = .clone i → w.iov i = some v → v.backrefs = []) : Unshared w' i :=
+  unshared_step hg h hi hu hc
+
+theorem unshared_when_empty {w : World} {i : Nat} (h : ∀ v, w.iov i = some v → v.slices = []) : Unshared w i :=
+  unshared_of_no_slices h
+
 /-- The global premise of `Props/C20.lean` implies the pairwise one, for every pair. -/
 theorem private_gives_no_share {w : World} (hp : PendingPrivate w) {X Y : Nat} (hXY : X ≠ Y) : NoShare w X Y :=
   noShare_of_private hp hXY
